@@ -304,7 +304,7 @@ def record_cases(name: str, rng: random.Random, tier: str):
 def stride_cases(rng: random.Random, n: int):
     """AT5 multi-record payloads with announced strides >= the known layout."""
     for _ in range(n):
-        sub, base = rng.choice([(0x21, 8), (0x23, 8)])
+        sub, base = rng.choice([(0x21, 8), (0x23, 8), (0x33, 9)])
         stride = rng.choice([base, base, 10, 12, 14, 17, 32])
         count = rng.choice([1, 2, 3, 8, 16])
         recs = [bytes(rng.randrange(256) for _ in range(stride)) for _ in range(count)]
@@ -314,6 +314,8 @@ def stride_cases(rng: random.Random, n: int):
             b = bytearray(r)
             if sub == 0x21:
                 b[0] = (rng.choice([0, 1, 3]) << 6) | (b[0] & 0x3F)
+            elif sub == 0x33:
+                pass
             else:
                 b[0] = (rng.choice([0, 1, 2, 3, 5]) << 4) | (b[0] & 0x0F)
                 b[1] = (rng.choice([0, 1, 2, 3, 4, 8, 9]) << 4) | rng.choice([0, 1, 2, 3, 4, 5, 6, 9, 10, 11, 12, 13, 14])
@@ -385,6 +387,25 @@ def check_c05(tier: str) -> int:
     for (sub, stride, count, recs, p), (_, _, d, _, mis) in zip(scases, sdec):
         ck.count()
         dist[f"stride_{stride}"] += 1
+        if sub == 0x33:
+            # the timer status layout is not in the vendor document; the reading is the one the
+            # module's own description gives: AC number, on timer, off timer (disabled bit 8, hour
+            # bits 5-1, minute bits 6-1), at offset i * stride
+            if d[0] == "ok":
+                seq = d[1].sub_message.ac_timer_status
+                want = [(r[0], bool(r[1] & 0x80), r[1] & 0x1F, r[2] & 0x3F, bool(r[3] & 0x80), r[3] & 0x1F, r[4] & 0x3F) for r in recs]
+                got = [(t.ac_number, t.on_timer.disabled, t.on_timer.hour, t.on_timer.minute,
+                        t.off_timer.disabled, t.off_timer.hour, t.off_timer.minute) for t in seq]
+                if got != want:
+                    ck.violation("timer record not read at its announced offset",
+                                 {"kind": "stride", "trigger": {"class": "stride:timer"}, "payload": p.hex(), "stride": stride,
+                                  "failure": f"decoder {got[:3]}..., bytes at i*stride mean {want[:3]}..."})
+            elif True:
+                ck.violation("timer status with a longer stride rejected",
+                             {"kind": "stride", "trigger": {"class": "stride:timer-rejected"}, "payload": p.hex(), "failure": str(d[1])})
+            if mis is not None:
+                corr_bad += 1
+            continue
         name = "at5_zone_status" if sub == 0x21 else "at5_ac_status"
         layout = LAYOUTS[name][4]
         if d[0] == "ok":
